@@ -56,8 +56,8 @@ def judge(pre, op, out, ctx):
                 check(end, 'trailers-without-end-stream', F.op_label(op))
         elif isinstance(f, hf.DataFrame):
             who = 'responder' if v.requester is False else 'requester'
-            check(v.hs, 'data-or-end-stream-before-final-headers:%s:%s' % (who, op[0]),
-                  F.op_label(op))
+            check(v.hs, 'data-or-end-stream-before-final-headers:%s:%s%s:%s' % (
+                who, v.st, '/pushed' if v.pushed else '', op[0]), F.op_label(op))
             check(not v.ts, 'data-after-trailers', F.op_label(op))
         elif isinstance(f, hf.PushPromiseFrame):
             check(not client, 'client-pushes', F.op_label(op))
